@@ -36,6 +36,7 @@ info('C14',
      '(evolve_step, sweep, prepare_evolve) abstract and a ghost accumulator `performed`: '
      'trunc_err.eps == old + performed and evolved_time == old + N_steps*dt for every N_steps; a static frame obligation '
      '(AST scan) shows no other function assigns self.trunc_err/self.evolved_time. TruncationError.__add__/copy/from_norm. '
+     'TEBDEngine.evolve with a prepared step whose time tau is independent of |dt| (imaginary time): evolved_time advances by N_steps * tau. '
      '(3) reinit_model of TimeDependentHAlgorithm and of the two time-dependent TDVP drivers: the model is H(evolved_time) afterwards, cached '
      'propagators are invalidated, TDVP environments are rebuilt with the current model. '
      'B (bounded, not proof): engines against exact diagonalisation on 6 sites (order of convergence, charge, norm, energy, '
@@ -68,7 +69,8 @@ info('C02',
      'outer_conj family: the flags `sorted` / `bunched` that a leg-returning method sets or keeps are true of the charges it returns '
      '(contracts/c_legs.py). '
      'B (bounded, not proof): after every step of generated operation histories (incl. in-place methods, shallow copies) '
-     'test_sanity() passes and every cached claim (sorted, bunched, _qdata_sorted), recomputed from its definition, is truthful; '
+     'test_sanity() passes and every cached claim (sorted, bunched, _qdata_sorted), recomputed from its definition, is truthful - also for the '
+     'shallow copies of a tensor that is restructured in place; '
      'all LegCharge constructors/transformations; qtotal is the documented function; both configurations.',
      ['flag protocol: under contract for LegCharge.bunch / sort / extend / conj / flip_charges_qconj and LegPipe.conj / outer_conj; project, '
       'from_qflat / from_qind / from_qdict, LegPipe construction and the `_qdata_sorted` claims of Array: bounded only',
@@ -85,7 +87,8 @@ info('C03',
      'iadd_prefactor_other, binary_blockwise; qr/lq/svd with random options; combine_legs with supplied pipes), compared with value '
      'snapshots taken before the operation (a deep copy shares the LegCharge objects and cannot serve as reference); results of '
      'non-in-place operations are written into and the operands re-read; in-place methods on a deep copy never change the source; '
-     'MPS-level frames; '
+     'MPS-level frames; structural in-place methods (projection that removes a charge block, transposition, relabelling) on one of several '
+     'shallow copies; tensors stored in an MPS / MPO with charges that shift under translation (DipolarChargeInfo) under every read accessor; '
      'ChargeInfo.make_valid leaves its argument alone; both configurations.',
      ['frame conditions of the tensor-level operations (np_conserved.Array methods, 5000 lines of numpy code): bounded only; '
       'in-place numpy updates of an opaque attribute leave the verified subset instead of being modelled',
@@ -150,7 +153,7 @@ info('C07',
      'B (bounded, not proof): constructors (from_full, from_product_state, from_Bflat + canonical_form, from_singlets, from_product_mps_covering with random entangled local '
      'states on interleaved site sets) and random '
      'histories of form conversions/canonicalisations against the dense state, Schmidt values and entropies at every cut, the '
-     'recorded norm; infinite MPS under canonical_form_infinite1/2 keep their observables; segment MPS cut out of finite and infinite '
+     'recorded norm; infinite MPS under canonical_form_infinite1/2 keep their observables; product states from labels / indices / local vectors mixed; segment MPS (boundary transformations accumulated over repeated canonicalisations) cut out of finite and infinite '
      'states; ExactDiag.full_to_mps / mps_to_full in both directions; project_onto_charge_sector against the dense projector.',
      ['numerical canonicalisation: bounded only',
       'segment MPS, ExactDiag conversions (complex states in a charge sector), project_onto_charge_sector, '
@@ -174,7 +177,7 @@ info('C09',
      'truncations performed with the given parameters, each bond exactly once, norm updated by exactly their renormalisation factors '
      '(contracts/c_compress.py); index normalisation and the form-exponent algebra of get_B/get_theta/convert_form (shared with C07). '
      'B (bounded, not proof): apply_local_op/apply_product_op (incl. fermionic operators with JW strings, norm tracked), swap_sites, '
-     'permute_sites (dense permutation with fermionic signs: old site i moves to perm[i] - the docstring said the inverse, F-45, corrected), '
+     'apply_product_op also with a unitary first factor (canonical form and tracked norm of the result), permute_sites (dense permutation with fermionic signs: old site i moves to perm[i] - the docstring said the inverse, F-45, corrected), '
      'add, group_sites+group_split, enlarge_chi, compress_svd (infidelity <= 2*reported eps), spatial_inversion (reversal, involution) '
      'on random finite MPS of all site families against the dense state; infinite MPS in forms A/B/C: roll/enlarge unit cell and '
      'spatial inversion leave observables unchanged up to relabelling; compress / compress_svd of infinite MPS with non-uniform bond '
@@ -190,7 +193,8 @@ info('C10',
      'strengths; plus_hc; explicit_plus_hc) on finite open/periodic chains for every site family: dense MPO, term list -> MPO, '
      'bond operators, MPO from bonds, ExactDiag, get_numpy_Hamiltonian (both sources), get_scipy_sparse_Hamiltonian, sorted MPO '
      'legs and grouped sites all equal the dense operator built from the specification with explicit Jordan-Wigner strings; on infinite '
-     'chains: segments of the MPO (also after enlarging the unit cell) for uniform couplings and for single local terms '
+     'chains: segments of the MPO (also after enlarging the unit cell) for uniform couplings and for single local terms; '
+     'NearestNeighborModel.group_sites for every L and group size 2 / 3 '
      '(add_local_term, plus_hc, reaching over the unit cell); '
      'Hermiticity.',
      ['MPOGraph path semantics (protocol-level invariant): bounded only', 'ladders/2D lattices and infinite boundaries: '
@@ -203,7 +207,7 @@ info('C12',
      'B (bounded; the site part is a complete enumeration of the stated finite domain): every predefined site class over S <= 3, '
      'Nmax <= 4, q <= 5, fillings and every conserve option: operators equal up to perm across options, spin / fermion / boson / clock '
      'algebra, declared h.c. pairs, operator charges consistent with the connected states, product names; grouped sites of 2-3 '
-     'heterogeneous sites with each charge policy; canonical anticommutation relations for all pairs of fermionic operators on chains '
+     'heterogeneous sites with each charge policy; rename_op / add_op / remove_op keep matrix, JW flag and h.c. partner; canonical anticommutation relations for all pairs of fermionic operators on chains '
      '<= 5 through term -> MPO and correlation functions, sampled quadruples through expectation_value_term.',
      ['grouped-site combinations and quadruples are sampled, not exhaustive'],
      [])
@@ -235,7 +239,7 @@ info('C15',
      'unnormalised and unsorted input x the full option grid incl. None: kept multiset, T1, norm and discarded weight; svd_theta: '
      'squared relative reconstruction error equals the reported error with the reported renormalization.',
      ['truncate() as an unbounded deductive obligation over symbolic spectra: not built in this round (bounded only)',
-      'eigh_rho: bounded only (trace, kept weight, reported error); decompose_theta_qr_based: exercised only by the repository tests'],
+      'eigh_rho and decompose_theta_qr_based: bounded only (trace, kept weight, reported error against the reconstruction)'],
      [])
 info('C16',
      'P: KrylovBased._to_cache (FIFO of size N_cache) and _calc_result_full (every coefficient vf[j] is paired exactly once with the '
@@ -244,7 +248,7 @@ info('C16',
      'B (bounded, not proof): LanczosGroundState over N_cache in {2,3,N_max} x reortho x E_shift on random Hermitian block-sparse '
      'operators (normalised vector, E0 = Rayleigh quotient >= minimum of the sector, exact at full Krylov dimension, independent of '
      'N_cache), orthogonal projection, Shift/Sum operator wrappers, Lanczos/Arnoldi evolution vs expm (norm preserving for '
-     'anti-Hermitian exponents; the normalize option and its documented defaults), Arnoldi Ritz pairs ordered by `which`, gram_schmidt, GMRES residual.',
+     'anti-Hermitian exponents; the normalize option and its documented defaults), Arnoldi Ritz pairs ordered by `which`, gram_schmidt (also for nearly dependent vectors), GMRES residual.',
      ['Lanczos numerics and convergence: bounded only', 'Arnoldi / GMRES / evolution classes: bounded only; known finding F-36 (GMRES breakdown)'],
      [])
 info('C17',
@@ -254,7 +258,7 @@ info('C17',
      'calls, field-by-field equality. '
      'B (bounded, not proof): real HDF5 round trip in every LegCharge format (blocks, compact, flat) and pickle round trip of instances '
      'of every Hdf5Exportable class found by reflection (uncovered classes are listed in coverage.bounded.bounds), of nested containers, '
-     'shared references and self-referential containers; MPS with mixed tensor dtypes / norm != 1 / mixed forms, infinite and segment MPS; '
+     'shared references and self-referential containers; MPS with mixed tensor dtypes / norm != 1 / mixed forms, infinite and segment MPS, segment lattices and models; '
      'recursive observational equality and test_sanity() of the loaded object.',
      ['the relational execution covers the small classes only; Site, MPS, MPO, lattices, models, term containers, Hdf5Saver/Loader dispatch '
       'pairs and pickle (__getstate__/__setstate__) are bounded only', 'h5py and pickle themselves'],
@@ -270,7 +274,7 @@ info('C18',
      'early checkpoint of a TEBD time evolution and a two-site DMRG ground-state search compared with the uninterrupted run.',
      ['whole-run equality (resume == uninterrupted) is a history property: bounded only',
       'resumed boundedly: TEBD time evolution, two-site DMRG (with/without mixer, default min_sweeps, measurements at algorithm '
-      'checkpoints), TimeDependentCorrelation / bra-ket / spectral-function simulations; other simulation classes are not resumed'],
+      'checkpoints, a chi_list schedule), TimeDependentCorrelation / bra-ket / spectral-function simulations; other simulation classes are not resumed'],
      ['Path.exists/unlink/rename and _save_to_file obey their POSIX ghost contracts (rename is an atomic replace)'])
 info('C11',
      'P: BaseEnvironment.get_LP / get_RP, real source, finite and infinite, every L, store on/off: the environment is built from the nearest stored one by absorbing exactly the sites in between, in order (abstract leaf _contract_LP/_contract_RP with that obligation), translated by whole unit cells where needed; the cache keeps its representation invariant (a stored LP[j] covers exactly the sites < j), loses nothing, the other family is untouched, LP[i] is stored afterwards (store=True) or the cache is unchanged (store=False); ValueError iff no stored environment lies within one unit cell (contracts/c_env.py). ' 
@@ -279,7 +283,8 @@ info('C11',
      'max_range, or L) and the documented comparison of the three overlaps (contracts/c_mpo.py). '
      'B (bounded, not proof): finite MPOs from random term lists for every site family against dense operators: expectation value, '
      'variance, sum, dagger, is_hermitian, is_equal (false positives and negatives), overlap, distance, to_TermList/from_term_list, '
-     'plus_identity, apply by every compression method within the reported error, error order of make_U_I/II for real- and '
+     'plus_identity, to_TermList with start sites in any order, apply by every compression method within the reported error (also to an '
+     'unnormalised state and twice), error order of make_U_I/II for real- and '
      'imaginary-time steps (and the Hamiltonian is unchanged by building them); infinite MPOs: is_equal / is_hermitian / overlap on windows.',
      ['MPO numerics: bounded only; infinite MPOs: is_equal / is_hermitian / overlap on windows with default and explicit max_range '
       'are bounded only; W tensors without identity markers: not covered'],
